@@ -96,6 +96,13 @@ Theorem C26_sample_stat :
       Ret ((qsum xs / qlen xs)%Qc, (qdev2 (qsum xs / qlen xs)%Qc xs / (qlen xs - 1))%Qc).
 Proof. exact sample_stat_many. Qed.
 
+(* average(op): allreduce_sum's pairwise tree (the same for every task count and schedule by
+   C23_value) divided by n is the arithmetic mean -- the tree of an associative operation is the
+   left-to-right sum (ProofsTree.seq_sum_assoc, for every list length). *)
+Theorem C26_average :
+  forall xs : list Qc, xs <> [] -> average Qc qc_ops xs = Ret (qsum xs / qlen xs)%Qc.
+Proof. exact average_spec. Qed.
+
 Theorem C26_sample_stat_single : forall x : Qc, sample_stat Qc qc_ops [x] = Ret (x, 0%Qc).
 Proof. exact sample_stat_one. Qed.
 
